@@ -3,10 +3,10 @@ package main
 // Symbolic values, Go-type -> SMT-sort mapping, and the heap model.
 
 import (
-	"regexp"
 	"fmt"
 	"go/types"
 	"math"
+	"regexp"
 	"strings"
 )
 
@@ -145,8 +145,8 @@ func isScalarKind(k Kind) bool {
 }
 
 func scalar(k Kind, t types.Type, tm string) Val { return Val{K: k, T: t, Tm: tm} }
-func boolVal(tm string) Val                     { return Val{K: KBool, T: types.Typ[types.Bool], Tm: tm} }
-func intVal(tm string) Val                      { return Val{K: KInt, T: types.Typ[types.Int], Tm: tm} }
+func boolVal(tm string) Val                      { return Val{K: KBool, T: types.Typ[types.Bool], Tm: tm} }
+func intVal(tm string) Val                       { return Val{K: KInt, T: types.Typ[types.Int], Tm: tm} }
 
 // typeKey is a stable printable name for a Go type used in heap keys.
 func typeKey(t types.Type) string {
@@ -184,36 +184,36 @@ func (tt *TagTable) tag(t types.Type) int {
 // lazily per key so untouched keys cost nothing.
 
 type Heap struct {
-	kind   string // entry | write | havoc | havocSome | merge
-	parent *Heap
-	key    string
-	val    string
-	keys   map[string]bool // havocSome: keys havocked; havoc+keep: keys kept
-	preds  []*Heap
-	conds  []string
-	id     int
-	memo   map[string]string
-	obj    string     // write: object term whose entry was written ("" = unknown)
-	loopSet *loopFrame // havoc node of a loop header (dry pass): the loop's own frame
-	isLoop bool
+	kind        string // entry | write | havoc | havocSome | merge
+	parent      *Heap
+	key         string
+	val         string
+	keys        map[string]bool // havocSome: keys havocked; havoc+keep: keys kept
+	preds       []*Heap
+	conds       []string
+	id          int
+	memo        map[string]string
+	obj         string     // write: object term whose entry was written ("" = unknown)
+	loopSet     *loopFrame // havoc node of a loop header (dry pass): the loop's own frame
+	isLoop      bool
 	keepPrivate bool
-	inclStable bool // havoc from an explicit `modifies *`: stable ghosts change too
-	byCall bool // havoc caused by a call (as opposed to a loop frame)
-	keep map[string]bool // havoc: additional keys that survive
-	interf bool // write models interference by another goroutine, not a write of this function
+	inclStable  bool            // havoc from an explicit `modifies *`: stable ghosts change too
+	byCall      bool            // havoc caused by a call (as opposed to a loop frame)
+	keep        map[string]bool // havoc: additional keys that survive
+	interf      bool            // write models interference by another goroutine, not a write of this function
 }
 
 type HeapSpace struct {
-	c     *Ctx
-	n     int
-	sorts map[string]string // key -> array sort
-	final map[string]bool   // keys never havocked by calls
-	private map[string]bool // keys only their type's writer methods may change
-	onHavoc func()
-	stable map[string]bool // stable ghosts: survive calls to unknown code, but not an explicit `modifies *`
-	readLog map[string]bool // when non-nil: keys read are recorded (footprint computation)
-	ignoreCallHavoc bool // evaluate as if calls to unknown code changed nothing (callees preserve invariants)
-	onHavocKey func(string)
+	c               *Ctx
+	n               int
+	sorts           map[string]string // key -> array sort
+	final           map[string]bool   // keys never havocked by calls
+	private         map[string]bool   // keys only their type's writer methods may change
+	onHavoc         func()
+	stable          map[string]bool // stable ghosts: survive calls to unknown code, but not an explicit `modifies *`
+	readLog         map[string]bool // when non-nil: keys read are recorded (footprint computation)
+	ignoreCallHavoc bool            // evaluate as if calls to unknown code changed nothing (callees preserve invariants)
+	onHavocKey      func(string)
 }
 
 func newHeapSpace(c *Ctx) *HeapSpace {
